@@ -19,7 +19,7 @@ ENCODED = ["twisted.spread.banana:int2b128", "twisted.spread.banana:b1282int",
            "twisted.spread.banana:Banana._encode", "twisted.spread.banana:Banana.sendEncoded",
            "twisted.spread.banana:Banana.dataReceived", "twisted.spread.banana:Banana.gotItem",
            "twisted.spread.banana:Banana.setPrefixLimit", "twisted.spread.banana:Banana.callExpressionReceived"]
-BOUNDS = {"quick": {"kbits": 35, "ibits": 35, "sbits": 14, "str": 2}, "thorough": {"kbits": 70, "ibits": 70, "sbits": 21, "str": 3}}
+BOUNDS = {"quick": {"kbits": 35, "ibits": 35, "sbits": 7, "str": 2}, "thorough": {"kbits": 70, "ibits": 70, "sbits": 14, "str": 3}}
 B = {}
 BOUNDS_TEXT = ("kernel: every n with 0 <= n < 2**kbits; single integers |n| <= 2**ibits (so both sides of the "
                "INT/LONGINT and NEG/LONGNEG switches at +-2**31) and the 12 integers around +-(2**448-1) (the "
@@ -63,8 +63,8 @@ from twisted.spread import banana as _real  # noqa: E402
 BananaError = _real.BananaError
 
 T_LIST, T_INT, T_STRING, T_NEG, T_LONGINT, T_LONGNEG, T_VOCAB = "\x80", "\x81", "\x82", "\x83", "\x85", "\x86", "\x87"
-WORDS = ["None", "class", "list", "tuple", "uncache"]   # ids 1, 2, 8, 11, 31
-WORD_IDS = [1, 2, 8, 11, 31]
+WORDS = ["None", "list", "uncache"]   # ids 1, 8, 31
+WORD_IDS = [1, 8, 31]
 
 
 class _Transport:
@@ -421,14 +421,33 @@ def dec_size(n: int, lst: bool, pad: bool, fill: str, split: int) -> bool:
     return got == [("B", fill[:k])] and t(bn.buffer) == ""
 
 
+def _structure_shards(tier):
+    # pb dialect only for shapes whose strings reach the vocabulary lookup in a new position; the
+    # shapes with two integer leaves are split by sign (halves the paths per process)
+    sh = []
+    signs1 = [("i1 < 0",), ("i1 >= 0",)]
+    signs2 = [a + c for a in signs1 for c in [("i2 < 0",), ("i2 >= 0",)]]
+    for shape in range(8):
+        for pb in (False, True):
+            if pb and shape not in (1, 2, 5, 7):
+                continue
+            base = ("shape == %d" % shape, "pb == %s" % pb)
+            if shape in (3, 6):
+                sh += [base + x for x in signs2]
+            elif shape == 5 and pb:
+                sh += [base + x for x in signs1]
+            else:
+                sh.append(base)
+    return sh
+
+
 HARNESSES = [
     H(kernel, timeout={"quick": 60, "thorough": 600}),
     H(kernel_decode, timeout={"quick": 60, "thorough": 300}),
     H(int_wire, shards=[("n >= 0",), ("n < 0",)], timeout={"quick": 60, "thorough": 900}),
     H(int_limit, timeout={"quick": 60, "thorough": 300}),
-    H(structure, shards=lambda tier: [("shape == %d" % s, "pb == %s" % p) for s in range(8) for p in (False, True)],
-      timeout={"quick": 60, "thorough": 1200}),
-    H(vocab, timeout={"quick": 60, "thorough": 300}),
+    H(structure, shards=_structure_shards, timeout={"quick": 60, "thorough": 1200}),
+    H(vocab, shards=[("w == %d" % i,) for i in range(3)], timeout={"quick": 60, "thorough": 300}),
     H(enc_limits, shards=[("kind == %d" % k,) for k in range(4)], timeout={"quick": 60, "thorough": 300}),
     H(dec_prefix, shards=[("len(p) <= 2",), ("len(p) == 3",), ("len(p) >= 4",)], timeout={"quick": 60, "thorough": 300}),
     H(dec_size, shards=[("lst == True",), ("lst == False",)], timeout={"quick": 60, "thorough": 300}),
@@ -445,7 +464,7 @@ VECTORS = {
     "structure": [(0, 1, 2, "a", "b", False, 0), (1, 0, 0, "\xff\x80", "", False, 2), (2, -5, 0, "", "", True, 3),
                   (3, 1000, -1000, "hi", "", False, 7), (4, 0, 0, "x", "", True, 1), (5, 16383, 0, "q", "\x00", False, 4),
                   (6, -16383, 127, "", "", True, 9), (7, 0, 0, "ab", "c", True, 5)],
-    "vocab": [(0, "", True, 0), (1, "x", False, 3), (4, "\x87", True, 5), (2, "", False, 11), (3, "a", True, 2)],
+    "vocab": [(0, "", True, 0), (1, "x", False, 3), (2, "\x87", True, 5), (2, "", False, 11), (1, "a", True, 2)],
     "enc_limits": [(0, 3, "abcde", 0), (0, 4, "abcde", 0), (1, 3, "abcde", -7), (1, 4, "abcde", 7),
                    (2, 4, "\x80\x81\x82\x83\x84", 1), (3, 5, "abcde", 100), (3, 0, "abcde", 2), (2, 0, "abcde", 2)],
     "dec_prefix": [("", 1, 0), ("\x01", 0, 0), ("\x01\x02\x03", 2, 2), ("\x01\x02\x03\x04", 0, 1),
